@@ -1,7 +1,7 @@
 (* C17 - Compilation yields unique identifiers; initial-state settings are honoured; compilation is a
    function of the document (determinism across processes is decided by the harness). *)
 From Coq Require Import List ZArith Bool.
-From JSL Require Import Base.Res SM.Types SM.Util Dsl.Doc Dsl.DocP.
+From JSL Require Import Base.Res SM.Types SM.Util Dsl.Doc Dsl.DocP SM.Handler SM.Step SM.Inv.
 Import ListNotations.
 
 (* ID_Counter never hands out an identifier that is already in use *)
@@ -35,3 +35,20 @@ Example C17_example_labels :
   | Err _ => False
   end.
 Proof. vm_compute. reflexivity. Qed.
+
+(* Every initial state the compiler model produces - for EVERY document it accepts - satisfies the hypotheses of
+   the state-machine theorems that do not depend on where the document puts the jobs: nothing started, machines
+   idle and empty, records routed as configured (fresh_b: hypothesis of C01), nothing pending in the past and no
+   claims (clock_b: C12), every AGV empty (agv_load_b: C03); and the clock is the configured start time. *)
+Theorem C17_initial_state_meets_hypotheses :
+  forall (d : ddoc) (early : bool) (i : inst) (x : state) (L : labels),
+    compile d early = Ok (i, x, L) ->
+    fresh_b i x = true /\ clock_b x = true /\ agv_load_b x = true
+    /\ s_now x = (match di_start (d_init d) with Some z => z | None => 0%Z end).
+Proof.
+  intros d early i x L H. unfold compile in H.
+  destruct (compile_inst d early) as [[i0 L0]|] eqn:E; simpl in H; [|discriminate].
+  destruct (init_state d i0 L0) as [x0|] eqn:E2; simpl in H; [|discriminate].
+  inversion H; subst. eapply init_state_fresh; eauto.
+Qed.
+Print Assumptions C17_initial_state_meets_hypotheses.
